@@ -72,10 +72,21 @@ def _worker_init():
     sys.setrecursionlimit(10000)
 
 
+_watchdog_armed = [False]
+
+
+def heartbeat():
+    """Re-arms the hang watchdog: for runs made of many independent bounded pieces
+    (C02 recovers hundreds of crash states per run) the limit applies per piece."""
+    if _watchdog_armed[0]:
+        faulthandler.dump_traceback_later(RUN_TIMEOUT, exit=True)
+
+
 def run_one(pid, seed, tier, want_record=False):
     """Generate and execute one run in this process. Never raises."""
     mod = prop_module(pid)
     faulthandler.dump_traceback_later(RUN_TIMEOUT, exit=True)
+    _watchdog_armed[0] = True
     t0 = time.time()
     try:
         record = mod.generate(seed, tier)
@@ -84,6 +95,7 @@ def run_one(pid, seed, tier, want_record=False):
         res = result_harness("seed %s: %s: %s\n%s" % (seed, type(e).__name__, e, traceback.format_exc()))
         record = None
     finally:
+        _watchdog_armed[0] = False
         faulthandler.cancel_dump_traceback_later()
     res["seed"] = seed
     res["wall"] = time.time() - t0
@@ -97,11 +109,13 @@ def run_one(pid, seed, tier, want_record=False):
 def run_record(pid, record):
     mod = prop_module(pid)
     faulthandler.dump_traceback_later(RUN_TIMEOUT, exit=True)
+    _watchdog_armed[0] = True
     try:
         res = mod.execute(record)
     except BaseException as e:  # noqa
         res = result_harness("%s: %s\n%s" % (type(e).__name__, e, traceback.format_exc()))
     finally:
+        _watchdog_armed[0] = False
         faulthandler.cancel_dump_traceback_later()
     return res
 
